@@ -54,6 +54,7 @@ MONITORS = ["instance_pairs_compared", "outputs_compared", "ctx_entries_compared
 
 BOUNDARY_SEEDS = [0, 1, 5, 2 ** 32 - 1, 2 ** 32, 2 ** 63 - 1]
 STEP_LIMIT = 400_000
+WITNESSES_PER_KEY = 5
 
 
 # ------------------------------------------------------------------------------------------------ generation
@@ -123,7 +124,7 @@ def gen_cases(run):
                     spec["_trivial"] = True
                 yield spec
     # (2) random compositions
-    for i in range(run.n(230, 48000)):
+    for i in range(run.n(300, 48000)):
         T = H.random_input_type(rng)
         depth = rng.choice([1, 2, 2, 3, 3])
         tree, _ = H.gen_composition(rng, T, depth, flags)
@@ -413,7 +414,13 @@ def run_case(run, spec):
         label = H.node_label(sub["tree"])
         key = f"{f['kind']}:{label}"
         sub = {k: v for k, v in sub.items() if k != "_trivial"}
-        run.violation(key, f"{label}: {f['what']}\nminimal violating sub-tree: {_brief(sub['tree'])}", sub)
+        # a handful of witnesses per mechanism: duplicates must not use up the runner's cap of recorded violations
+        per_key = run.__dict__.setdefault("_c07_per_key", {})
+        per_key[key] = per_key.get(key, 0) + 1
+        if key in run.known or per_key[key] <= WITNESSES_PER_KEY:
+            run.violation(key, f"{label}: {f['what']}\nminimal violating sub-tree: {_brief(sub['tree'])}", sub)
+        else:
+            run.count(f"further_witnesses[{key}]")
 
 
 def _brief(node):
